@@ -37,6 +37,8 @@ async def run_exchange(sc, client=None, agent=None):
                         clock=lambda: sc.get("now", 50000))
     if agent is None:
         ag.mib.set(inst, enc_str(b"x" * pad))
+    if "report_ctx" in sc:
+        ag.report_ctx_engine = bytes(sc["report_ctx"])
     import puresnmp.api.raw, puresnmp_plugins.security.usm  # noqa
     _clk = patched_clock(lambda: sc.get("now", 50000))
     _clk.__enter__()
@@ -48,6 +50,23 @@ async def run_exchange(sc, client=None, agent=None):
         return ag.handle(bytes(packet))
     c = client or Client("192.0.2.1", make_creds(sc), sender=sender, context_name=bytes(sc.get("ctxname", b"")), engine_id=bytes(sc.get("ctxengine", b"")))
     op = sc["op"]
+    t_known = None
+    if sc.get("resp_lag"):
+        # the agent's answers are stamped a little behind what the client already knows (responses overtaking one another, a clock
+        # stepped back): still inside the window, and they must be decrypted with the parameters they carry themselves
+        try:
+            await c.get(OID(oidstr(PFX + (1, 2, 0))))
+        except Exception:  # noqa
+            pass
+        t_known = ag.engine_time()
+        ag.time_override = t_known - sc["resp_lag"]
+    if sc.get("prior_report"):
+        # history: an earlier request of this client was answered with a usmStats Report (it fails); what follows must be secured as ever
+        ag.force_report = sc["prior_report"]
+        try:
+            await c.get(OID(oidstr(PFX + (1, 2, 0))))
+        except Exception:  # noqa
+            pass
     VS.CALLS.clear()
     nlog = len(ag.log)
     o = OID(oidstr(inst))
@@ -114,7 +133,7 @@ async def run_exchange(sc, client=None, agent=None):
     q = reqs[0]
     plain = list(q.get("spdu_plain", b"")) if sc["level"] == "authpriv" else []
     ev["req"] = dict(raw=list(q["raw"]), plain=plain, digest_ok=bool(q.get("digest_ok", sc["level"] == "noauth")), verdict=q.get("verdict", "?"),
-                     boots=canon_int(ag.boots), time=canon_int(q.get("agent_time", ag.engine_time())))
+                     boots=canon_int(ag.boots), time=canon_int(t_known if t_known is not None else q.get("agent_time", ag.engine_time())))
     ev["verdicts"] = [r.get("verdict", "?") for r in reqs]
     ev["intended"] = dict(flags=(1 if u.auth else 0) | (2 if u.priv else 0), user=list(u.name), engine=list(engine),
                           ctxengine=list(sc.get("ctxengine") or engine), ctxname=list(sc.get("ctxname", b"")), ptype=ptype)
